@@ -34,6 +34,10 @@ CLAIMS["C01"] = ("other", "who-may-write + value-shape (provenance) analysis of 
   "Decides that the set of bankroll writers is closed and each has an accepted chip-flow shape, that settlement credits result entry r to the player of r over the whole result list, that no top-up can be lost to an absolute settlement write, and that the start stack is the player's bankroll. One genuine lost-update defect was repaired (fix: commit). Zero-sum of pokerface results and sums over histories are not decided.",
   "DESIGN.md §4 C01, §5 F5", TRUST)
 
+CLAIMS["C12"] = ("other", "field-to-field provenance of blind values into the hand options and the published hand-blind record; alias (freshness) check; single-consistent-read rule decided by snapshot identity or lockset; who-may-write; guard dominance for the break guards",
+  "Decides that charged and published blinds are copied field by field from one consistent snapshot of the level taken at hand start, that the published record is not an alias of the mutable level, who may write the level, and that the break guards are in place. One genuine torn-read defect was repaired (fix: commit). Arbitrary unsynchronised update schedules beyond the single-read rule are not decided.",
+  "DESIGN.md §4 C12, §5 F9", TRUST)
+
 REASONS = {}
 
 checks = []
